@@ -122,10 +122,11 @@ func (s *vSched) run(e *vEnv, n int, work func(tid int), choose func(step int, e
 // ---- rotating single-use refresh tokens at the identity provider ----
 
 type vRotIdP struct {
-	mu    sync.Mutex
-	cur   int
-	succ  int
-	reuse int
+	mu       sync.Mutex
+	cur      int
+	succ     int
+	reuse    int
+	reusable bool // refresh tokens are not rotated out: any earlier token is still accepted
 }
 
 func (r *vRotIdP) handler(email string) func(url.Values) (int, string, string, error) {
@@ -135,7 +136,7 @@ func (r *vRotIdP) handler(email string) func(url.Values) (int, string, string, e
 		if form.Get("grant_type") != "refresh_token" {
 			return 400, "application/json", `{"error":"unsupported_grant_type"}`, nil
 		}
-		if form.Get("refresh_token") != fmt.Sprintf("rt%d", r.cur) {
+		if form.Get("refresh_token") != fmt.Sprintf("rt%d", r.cur) && !r.reusable {
 			r.reuse++
 			return 400, "application/json", `{"error":"invalid_grant"}`, nil
 		}
@@ -156,6 +157,8 @@ type vSchedOutcome struct {
 	deadlock bool
 }
 
+var vReusableTokens bool
+
 // vRunSchedule seeds a stale session, runs n concurrent requests under `choose`, and reports.
 func vRunSchedule(t *testing.T, e *vEnv, n int, signOutTid int, choose func(step int, enabled []int, last int) int) (*vSchedOutcome, []int, []int) {
 	e.redis.mu.Lock()
@@ -163,7 +166,7 @@ func vRunSchedule(t *testing.T, e *vEnv, n int, signOutTid int, choose func(step
 	e.redis.locks = map[string]int{}
 	e.redis.ops = nil
 	e.redis.mu.Unlock()
-	rot := &vRotIdP{}
+	rot := &vRotIdP{reusable: vReusableTokens}
 	e.idp.onToken = rot.handler("user@example.com")
 	b := e.newBrowser("https://app.example.com")
 	b.seedSession("user@example.com", 2*time.Hour, 30) // stale, refresh token rt0
@@ -292,6 +295,9 @@ func driveC12(t *testing.T, out *vEmitter) {
 	explore(3, vPick(2, 3), vPick(300, 6000), "3req", -1)
 	// a sign-out racing a refreshing request (C11)
 	explore(2, vPick(3, 99), vPick(300, 5000), "signout", 1)
+	vReusableTokens = true // a provider that does not rotate refresh tokens out
+	explore(2, vPick(3, 99), vPick(300, 5000), "signout-reusable", 1)
+	vReusableTokens = false
 
 	// ---- sequential behaviours: provider variants ----
 	vC12Sequential(t, out)
